@@ -81,6 +81,8 @@ def gen_cases(ctx):
                      deliver=[r.choice(["run", "run", "runfile", "acc"]) for _ in range(2)])
             if name == "nodb":
                 c["nodb"] = r.choice(["never", "failed-load"])
+            c["load_string"] = int(r.random() < 0.4)
+            c["switches_first"] = int(r.random() < 0.5)
             if name.startswith("gen"):
                 c["gseed"] = ctx.rng("g", name).randrange(1 << 30)
             yield c
@@ -105,17 +107,29 @@ def run_case(ctx, case):
     text = _input(ctx, case)
     s = core.Script()
     s.raw("new a")
+
+    def load():
+        # the database arrives as a file or as a string, before or after the switches are set: the switches are the user's, a load keeps them
+        dbp_ = os.path.join(ctx.db, "phreeqc.dat")
+        if case.get("load_string"):
+            with open(dbp_, encoding="latin-1") as f_:
+                s.raw("loaddbstr a " + s.text(f_.read()))
+        else:
+            s.raw("loaddb a " + dbp_)
+    early = case.get("switches_first") and case["input"] != "nodb"
     if case["input"] != "nodb":
-        s.raw("loaddb a " + os.path.join(ctx.db, "phreeqc.dat"))
+        if not early:
+            load()
     elif case["nodb"] == "failed-load":
         s.raw("loaddb a /nonexistent_dir/none.dat")
     for k, v in _names(case["custom"]).items():
         s.raw("set a %sFileName %s" % (k, v))
     selnames = {}
 
-    def apply(sw, sel, cur):
+    def apply(sw, sel, cur, skip_global=False):
         for k, v in sorted(sw.items()):
-            s.raw("set a %s %d" % (k, v))
+            if not skip_global:
+                s.raw("set a %s %d" % (k, v))
         for n, (so, fo) in sorted(sel.items()):
             s.raw("cur a %s" % n)
             s.raw("set a SelectedOutputStringOn %d" % so)
@@ -134,7 +148,12 @@ def run_case(ctx, case):
         else:
             s.run("a", content)
 
-    apply(case["sw"], case["sel"], case["cur"])
+    if early:
+        # only the global switches: per-user-number selected-output switches are reset by a load (C07)
+        for k, v in sorted(case["sw"].items()):
+            s.raw("set a %s %d" % (k, v))
+        load()
+    apply(case["sw"], case["sel"], case["cur"], skip_global=bool(early))      # after an early load the global switches are not touched again: the load must have kept them
     s.raw("tag call1")
     deliver(case.get("deliver", ["run", "run"])[0], text)
     s.raw("snap a oldewsfLgc")
